@@ -42,6 +42,12 @@ pub struct Scenario {
     pub alloc_fail_pct: u64,
     pub policy: Policy,
     pub policy_seed: u64,
+    /// If present, this run is not a ledger history but a conversation with a
+    /// simulated sandbox child whose requests hold these many bytes: the peak
+    /// as the sandbox reports it (`memory_used`, i.e. child.rs's use of
+    /// reset_max()/get_max() around each request) must not be below them.
+    #[serde(default)]
+    pub sandbox_holds: Option<Vec<u64>>,
 }
 
 impl Scenario {
@@ -357,6 +363,114 @@ fn quiescent(sh: &Shared, reset: bool, at: &str) {
 
 pub struct C19;
 
+/// A conversation with a simulated sandbox child (real parent.rs / child.rs /
+/// alloc.rs): each request holds `k` bytes (+ the 64 every request of the test
+/// service uses) of tracked memory at once. The peak the child reports for the
+/// request must not be less.
+fn run_sandbox_peak(sc: &Scenario, holds: &[u64], chooser: Chooser, keep_log: bool) -> Outcome {
+    use crate::c18::{child_main, Reply, Request, SvcCfg, TestSvc};
+    use rink_sandbox::{Error, Sandbox};
+    use std::cell::RefCell;
+    use std::rc::Rc;
+    let cfg = WorldCfg {
+        policy: sc.policy,
+        policy_seed: sc.policy_seed,
+        pipe_cap: 65536,
+        atomics_yield: false,
+        step_cap: 200_000,
+        keep_log,
+        ..WorldCfg::default()
+    };
+    let world = World::new(cfg, chooser);
+    world.register_program("simchild", Arc::new(child_main));
+    type Seen = Vec<(u64, Result<(Reply, usize), String>)>;
+    let seen: Rc<RefCell<Seen>> = Rc::new(RefCell::new(Vec::new()));
+    let seen2 = seen.clone();
+    let holds2 = holds.to_vec();
+    let limit = sc.limit;
+    let main = async move {
+        let sandbox = match Sandbox::<TestSvc>::new(SvcCfg {
+            timeout_ns: 10_000_000_000,
+            mem_limit: limit,
+        })
+        .await
+        {
+            Ok(s) => s,
+            Err(_) => return,
+        };
+        for k in holds2 {
+            let r = sandbox.execute(Request::Hold(k)).await;
+            seen2.borrow_mut().push((
+                k,
+                match r {
+                    Ok(resp) => Ok((resp.result, resp.memory_used)),
+                    Err(Error::Crashed) => Err("Crashed".to_string()),
+                    Err(e) => Err(format!("{}", e)),
+                },
+            ));
+        }
+        drop(sandbox);
+    };
+    let (report, _) = world.run(main);
+    let seen = seen.borrow().clone();
+    let mut violation = None;
+    let mut history = Vec::new();
+    for (i, (k, r)) in seen.iter().enumerate() {
+        history.push(format!("#{} hold {} bytes (+64) under limit {} -> {:?}", i, k, limit, r));
+        let fits = k.max(&1) + 64 <= limit;
+        match r {
+            Ok((Reply::Held(kk), used)) if kk == k => {
+                if (*used as u64) < k.max(&1) + 64 && violation.is_none() {
+                    violation = Some(Violation {
+                        clause: "sandbox-peak-under-reported".into(),
+                        detail: format!(
+                            "request #{} held {} + 64 bytes of tracked memory at once but the sandbox reported memory_used = {}",
+                            i, k, used
+                        ),
+                    });
+                }
+                if !fits && violation.is_none() {
+                    violation = Some(Violation {
+                        clause: "limit-exceeded".into(),
+                        detail: format!(
+                            "request #{} held {} + 64 bytes although the child's limit is {}",
+                            i, k, limit
+                        ),
+                    });
+                }
+            }
+            Err(e) if e == "Crashed" && !fits => {}
+            other => {
+                if violation.is_none() {
+                    violation = Some(Violation {
+                        clause: "did-not-finish".into(),
+                        detail: format!("sandbox request #{} (hold {}) answered {:?}", i, k, other),
+                    });
+                }
+            }
+        }
+    }
+    if violation.is_none() && (report.end != RunEnd::Completed || seen.len() != holds.len()) {
+        violation = Some(Violation {
+            clause: "did-not-finish".into(),
+            detail: format!("sandbox conversation did not complete: {:?}", report.end),
+        });
+    }
+    let mut stats = report.stats.clone();
+    *stats.entry("sandbox_peak_conversations".to_string()).or_insert(0) += 1;
+    *stats.entry("sandbox_peak_requests".to_string()).or_insert(0) += seen.len() as u64;
+    Outcome {
+        violation,
+        digest: report.digest,
+        choices: report.choices,
+        stats,
+        sim_ns: report.sim_ns,
+        history,
+        nontrivial: true,
+        log: report.log,
+    }
+}
+
 fn sizes_for(limit: u64) -> Vec<u64> {
     let l = limit;
     let mut v = vec![1, 8, l / 2, l / 2 + 1, l - 1, l, l + 1, l / 3, 24];
@@ -462,6 +576,7 @@ fn systematic(index: u64, tier: Tier) -> Option<Scenario> {
         alloc_fail_pct: 0,
         policy: Policy::Sticky(8),
         policy_seed: 0,
+        sandbox_holds: None,
     })
 }
 
@@ -496,6 +611,28 @@ impl Harness for C19 {
             return sc;
         }
         let limit = *rng.pick(&[64u64, 1000, 4096, 1 << 20]);
+        if rng.chance(1, 64) {
+            // The peak as reported through the sandbox (child.rs).
+            let n = 1 + rng.below(5) as usize;
+            let lim = *rng.pick(&[1000u64, 4096, 1 << 20]);
+            let holds = (0..n)
+                .map(|_| *rng.pick(&[1u64, 8, lim / 2, lim - 64, lim - 63, lim, 100]))
+                .collect();
+            return Scenario {
+                limit: lim,
+                phases: Vec::new(),
+                reset: ResetMode::End,
+                reset_seed: 0,
+                alloc_fail_pct: 0,
+                policy: match rng.below(3) {
+                    0 => Policy::Uniform,
+                    1 => Policy::Pct(2),
+                    _ => Policy::Sticky(4),
+                },
+                policy_seed: rng.next_u64(),
+                sandbox_holds: Some(holds),
+            };
+        }
         // Sub-batches are chosen by the run's own PRNG (not by index) so that
         // every worker process gets the same mix.
         let concurrent = rng.chance(1, 8);
@@ -553,10 +690,14 @@ impl Harness for C19 {
                 _ => Policy::Starve(rng.below(4) as u32),
             },
             policy_seed: rng.next_u64(),
+            sandbox_holds: None,
         }
     }
 
     fn execute(&self, sc: &Scenario, chooser: Chooser, keep_log: bool) -> Outcome {
+        if let Some(holds) = &sc.sandbox_holds {
+            return run_sandbox_peak(sc, holds, chooser, keep_log);
+        }
         let concurrent = sc.concurrent();
         let cfg = WorldCfg {
             policy: sc.policy,
@@ -732,6 +873,21 @@ impl Harness for C19 {
 
     fn shrink(&self, sc: &Scenario) -> Vec<Scenario> {
         let mut out = Vec::new();
+        if let Some(h) = &sc.sandbox_holds {
+            if h.len() > 1 {
+                for i in 0..h.len() {
+                    let mut c = sc.clone();
+                    c.sandbox_holds.as_mut().unwrap().remove(i);
+                    out.push(c);
+                }
+            }
+            if sc.policy != Policy::Sticky(8) {
+                let mut c = sc.clone();
+                c.policy = Policy::Sticky(8);
+                out.push(c);
+            }
+            return out;
+        }
         // drop phases
         if sc.phases.len() > 1 {
             for i in 0..sc.phases.len() {
@@ -838,6 +994,9 @@ impl Harness for C19 {
     }
 
     fn key(&self, sc: &Scenario) -> String {
+        if let Some(h) = &sc.sandbox_holds {
+            return format!("sandbox-holds:{}", h.len());
+        }
         let mut parts = Vec::new();
         for p in &sc.phases {
             let mut ts = Vec::new();
@@ -860,7 +1019,9 @@ impl Harness for C19 {
     }
 
     fn label(&self, sc: &Scenario) -> String {
-        if sc.concurrent() {
+        if sc.sandbox_holds.is_some() {
+            "peak-reported-through-sandbox".into()
+        } else if sc.concurrent() {
             "concurrent".into()
         } else if sc.ops() > 6 {
             "sequential-long".into()
@@ -909,6 +1070,7 @@ impl Harness for C19 {
             "parent_alloc_refused",
             "concurrent_histories",
             "sequential_histories",
+            "sandbox_peak_conversations",
             "context_switch_forced",
         ]
     }
